@@ -1,6 +1,7 @@
 import Gaftools.Drv.Util
 import Gaftools.Model.Sort
 import Gaftools.Spec.Sort
+import Gaftools.Model.SortText
 /-! driver ops for sort (C08, C09, C10) -/
 namespace Gaftools.Drv.Sort
 open Lean Gaftools.Drv Gaftools.Sort
@@ -79,5 +80,17 @@ def opFile (j : Json) : R Json := do
                   | some a => Json.arr #[ji a.bo, ji a.no, ji a.start, ji a.inv]
                   | none => Json.null) specs),
               ("spec_on_impl", jb specOk), ("spec_gsi_on_impl", jb gsiSpecOk)]
+
+end Gaftools.Drv.Sort
+
+namespace Gaftools.Drv.Sort
+open Lean Gaftools.Drv Gaftools.Sort
+
+/-- op "sort.lines": {nodes, lines:[raw GAF lines]} → the lines the model writes (text layer included) -/
+def opLines (j : Json) : R Json := do
+  let tbl ← listOf nodeTagsOf (← fld j "nodes")
+  let lines := (← listOf jStr (← fld j "lines")).map String.toList
+  let out := Gaftools.SortText.sortLines (lookup tbl) lines
+  return obj [("model", jopt (jl (fun l => js (String.ofList l))) out)]
 
 end Gaftools.Drv.Sort
